@@ -47,6 +47,38 @@ CLAIMED = {
    note="Trusted: Coq kernel+vm_compute; click; the table translator; the in-process API chain used to observe the outcome.",
    technique="Coq proof over Gallina model of exit-status mapping and op sequence + vm_compute correspondence against CLI subprocess runs",
    design="7/C19"),
+ 'C03': dict(
+   text="Gallina model of the ANTLR visitor (Idl/Visitor.v: every visit method of parser.py on the dumped parse tree, with Python's "
+        "evaluation order and None-dereferences explicit). Theorems for unbounded objects: the target set computed from a +/- flag "
+        "sequence of ANY length is the documented denotation; flag evaluation writes no state; after visiting ANY tree the namespace "
+        "stack is restored and the members of `namespace a.b {}` are visited under the enclosing path ++ [a;b]. Tie: K-front evaluates "
+        "the model (vm_compute) on the real parse trees of generated programs under random layouts and compares the complete AST incl. "
+        "every position; all flag sequences of length <= 3 are enumerated; an independent oracle compares the AST with the abstract program.",
+   note="Trusted: Coq kernel+vm_compute; ANTLR lexer/parser (the model starts from the dumped parse tree); pydantic; the harness generators/mutators and the Python reference readings used as oracles.", technique="Coq proof over Gallina model of the visitor + vm_compute correspondence on real parse trees", design="7/C03"),
+ 'C05': dict(
+   text="Coq theorems: the post-resolution rule checks of Parser.parse (model Idl/Front.v) report EXACTLY the rule violations "
+        "(sound and complete as an iff with a declarative violation relation) for declaration lists of any length, any member index, "
+        "imported declarations included; acceptance iff no violation; generic-arity and unknown-type reporting per reference. Tie: "
+        "K-front compares the diagnostics multiset (class, code, file, line, column) of model and implementation on programs with 0-3 "
+        "injected violations of 18 rules at random sites (namespace depth 0-3, root or imported file); an oracle checks every injected "
+        "violation is reported at its file and line and nothing else is.",
+   note="Trusted: Coq kernel+vm_compute; ANTLR lexer/parser (the model starts from the dumped parse tree); pydantic; the harness generators/mutators and the Python reference readings used as oracles.", technique="Coq proof (iff with declarative rule relation) + vm_compute correspondence on rule-violating mutants", design="7/C05"),
+ 'C06': dict(
+   text="Coq theorems: import recursion is fuel-bounded and its exhaustion is the circular-import diagnostic; deferred resolution, "
+        "generic checks and rule checks never fail internally for ANY references, registry and declarations (unresolved references are "
+        "skipped). The full no-crash statement is REFUTED with a witness tree (C06_no_crash_refuted): the visitor crashes on "
+        "error-recovered trees - recorded finding C06-K1; the model reproduces these crashes exactly (Crash outcomes are compared). Tie: "
+        "K-front on token/character mutations, deep nesting and unknown types in every position; oracle: only own diagnostics, each "
+        "inside its file.",
+   note="Trusted: Coq kernel+vm_compute; ANTLR lexer/parser (the model starts from the dumped parse tree); pydantic; the harness generators/mutators and the Python reference readings used as oracles. Known finding C06-K1 (visitor on recovered trees).", technique="Coq proof (totality of post-visit phases, refutation witness) + vm_compute correspondence on malformed inputs", design="7/C06"),
+ 'C16': dict(
+   text="Coq theorems about the import model (Idl/Front.v) for every file system, importer and include-directory list: the file chosen "
+        "is the first existing non-directory among [literal; importer dir; include dirs...]; NotFound iff none exists; self import "
+        "detection; recursion bounded by fuel with the circular diagnostic on exhaustion. 'Loaded once' and 'every cycle diagnosed' "
+        "are REFUTED with witnesses evaluated on the model (diamond; cycle through declaring files) - recorded findings C16-K1/K2, "
+        "plus C16-K3 (exponential blow-up = hang). Tie: K-front on import graphs over 1-5 files (trees, DAGs, cycles, self loops, "
+        "missing leaves, decoys, traps) x placements x spellings x include dirs, with an oracle based on the documented search order.",
+   note="Trusted: Coq kernel+vm_compute; ANTLR lexer/parser (the model starts from the dumped parse tree); pydantic; the harness generators/mutators and the Python reference readings used as oracles. Known findings C16-K1, C16-K2, C16-K3.", technique="Coq proof (search order, bounded recursion, refutation witnesses) + vm_compute correspondence on import graphs", design="7/C16"),
 }
 PENDING_REASON = "check not built yet in this session (work in progress; see DESIGN.md section 10 build order)"
 HOOK_COMMITS = []
